@@ -249,14 +249,14 @@ fn receive_acks(
     mut entity_buffer: ResMut<EntityBuffer>,
 ) {
     for (client, mut message) in server.receive(ClientChannel::MutationAcks) {
+        // Only authorized clients have ticks. Others receive no mutations, so they have nothing to acknowledge.
+        let Ok(mut ticks) = clients.get_mut(client) else {
+            debug!("ignoring mutation acks from unauthorized client `{client}`");
+            continue;
+        };
         while message.has_remaining() {
             match postcard_utils::from_buf(&mut message) {
                 Ok(mutate_index) => {
-                    let mut ticks = clients.get_mut(client).unwrap_or_else(|_| {
-                        panic!(
-                            "messages from client `{client}` should have been removed on disconnect"
-                        )
-                    });
                     ticks.ack_mutate_message(
                         client,
                         &mut entity_buffer,
